@@ -267,6 +267,8 @@ class Interp:
         if selfobj is not None and pos:
             env[pos[0]] = selfobj
             pos = pos[1:]
+        if f.cls is not None and selfobj is not None:
+            env['#super'] = (f.cls, selfobj)         # what a bare super() means inside this method
         if len(args) > len(pos) and not f.vararg:
             raise Unsupported('too many arguments for %s' % f.short)
         if f.vararg:
@@ -340,17 +342,17 @@ class Interp:
                 self.assign(t, v, env, mod)
         elif isinstance(s, ast.AugAssign):
             cur = self.expr(ast.copy_location(_load(s.target), s), env, mod)
-            v = self.binop(s.op, cur, self.expr(s.value, env, mod))
+            v = self._binop(s.op, cur, self.expr(s.value, env, mod))
             self.assign(s.target, v, env, mod)
         elif isinstance(s, ast.Return):
             raise _Return(self.expr(s.value, env, mod) if s.value is not None else None)
         elif isinstance(s, ast.If):
-            if self.expr(s.test, env, mod):
+            if self._truth(self.expr(s.test, env, mod)):
                 self.block(s.body, env, mod)
             else:
                 self.block(s.orelse, env, mod)
         elif isinstance(s, ast.For):
-            for x in self.expr(s.iter, env, mod):
+            for x in self._iter(self.expr(s.iter, env, mod)):
                 self.assign(s.target, x, env, mod)
                 try:
                     self.block(s.body, env, mod)
@@ -361,7 +363,7 @@ class Interp:
             else:
                 self.block(s.orelse, env, mod)
         elif isinstance(s, ast.While):
-            while self.expr(s.test, env, mod):
+            while self._truth(self.expr(s.test, env, mod)):
                 try:
                     self.block(s.body, env, mod)
                 except _Break:
@@ -414,7 +416,7 @@ class Interp:
                     elif hasattr(cm, '__exit__'):
                         cm.__exit__(None, None, None)
         elif isinstance(s, ast.FunctionDef):
-            env[s.name] = ('#def', s, env, mod)
+            env[s.name] = ('#def', s, env, mod, self._defaults(s.args, env, mod))
         elif isinstance(s, ast.Delete):
             for t in s.targets:
                 if isinstance(t, ast.Subscript):
@@ -517,7 +519,12 @@ class Interp:
             o.attrs[t.attr] = v
         elif isinstance(t, ast.Subscript):
             o = self.expr(t.value, env, mod)
-            if isinstance(o, (list, dict)):
+            if isinstance(t.slice, ast.Slice) and isinstance(o, list):
+                lo = self.expr(t.slice.lower, env, mod) if t.slice.lower else None
+                hi = self.expr(t.slice.upper, env, mod) if t.slice.upper else None
+                st = self.expr(t.slice.step, env, mod) if t.slice.step else None
+                o[lo:hi:st] = list(self._iter(v))
+            elif isinstance(o, (list, dict)):
                 o[self.expr(t.slice, env, mod)] = v
             elif isinstance(o, Obj):
                 o.items[self.expr(t.slice, env, mod)] = v
@@ -573,7 +580,7 @@ class Interp:
                 if isinstance(v, ast.Constant):
                     out += v.value
                 else:
-                    x = self.expr(v.value, env, mod)
+                    x = self._proxy(self.expr(v.value, env, mod))
                     if v.conversion == ord('r'):
                         x = repr(x)
                     elif v.conversion == ord('s'):
@@ -582,29 +589,37 @@ class Interp:
                         x = ascii(x)
                     out += format(x, self.expr(v.format_spec, env, mod) if v.format_spec else '')
             return out
-        if isinstance(e, ast.Tuple):
-            return tuple(self.expr(x, env, mod) for x in e.elts)
-        if isinstance(e, ast.List):
-            return [self.expr(x, env, mod) for x in e.elts]
-        if isinstance(e, ast.Set):
-            return {self.expr(x, env, mod) for x in e.elts}
+        if isinstance(e, (ast.Tuple, ast.List, ast.Set)):
+            items = []
+            for x in e.elts:
+                if isinstance(x, ast.Starred):
+                    items += list(self._iter(self.expr(x.value, env, mod)))
+                else:
+                    items.append(self.expr(x, env, mod))
+            return tuple(items) if isinstance(e, ast.Tuple) else (items if isinstance(e, ast.List) else set(items))
         if isinstance(e, ast.Dict):
-            return {self.expr(k, env, mod): self.expr(v, env, mod) for k, v in zip(e.keys, e.values)}
+            out = {}
+            for k, v in zip(e.keys, e.values):
+                if k is None:
+                    out.update(self.expr(v, env, mod))         # {**d}
+                else:
+                    out[self.expr(k, env, mod)] = self.expr(v, env, mod)
+            return out
         if isinstance(e, ast.IfExp):
-            return self.expr(e.body if self.expr(e.test, env, mod) else e.orelse, env, mod)
+            return self.expr(e.body if self._truth(self.expr(e.test, env, mod)) else e.orelse, env, mod)
         if isinstance(e, ast.BoolOp):
             v = None
             for x in e.values:
                 v = self.expr(x, env, mod)
-                if isinstance(e.op, ast.And) and not v:
+                if isinstance(e.op, ast.And) and not self._truth(v):
                     return v
-                if isinstance(e.op, ast.Or) and v:
+                if isinstance(e.op, ast.Or) and self._truth(v):
                     return v
             return v
         if isinstance(e, ast.UnaryOp):
             v = self.expr(e.operand, env, mod)
             if isinstance(e.op, ast.Not):
-                return not v
+                return not self._truth(v)
             if isinstance(e.op, ast.USub):
                 return -v
             if isinstance(e.op, ast.UAdd):
@@ -613,12 +628,12 @@ class Interp:
                 return ~v
             raise Unsupported('unary op')
         if isinstance(e, ast.BinOp):
-            return self.binop(e.op, self.expr(e.left, env, mod), self.expr(e.right, env, mod))
+            return self._binop(e.op, self.expr(e.left, env, mod), self.expr(e.right, env, mod))
         if isinstance(e, ast.Compare):
             left = self.expr(e.left, env, mod)
             for op, c in zip(e.ops, e.comparators):
                 right = self.expr(c, env, mod)
-                if not self.compare(op, left, right):
+                if not self._compare(op, left, right):
                     return False
                 left = right
             return True
@@ -691,10 +706,13 @@ class Interp:
                 raise Unsupported('attribute %s of %r' % (e.attr, o))
             if isinstance(o, tuple) and o and o[0] == '#sym' and o[1].kind == 'class':
                 # class attribute constant
-                c = self.prog.classes[o[1].target]
-                for b in c.node.body:
-                    if isinstance(b, ast.Assign) and any(isinstance(t, ast.Name) and t.id == e.attr for t in b.targets):
-                        return self.expr(b.value, self._class_env(c, b), c.mod)
+                for q in self.prog.mro(o[1].target):
+                    c = self.prog.classes.get(q)
+                    if c is None:
+                        continue
+                    for b in c.node.body:
+                        if isinstance(b, ast.Assign) and any(isinstance(t, ast.Name) and t.id == e.attr for t in b.targets):
+                            return self.expr(b.value, self._class_env(c, b), c.mod)
             for t, names in SAFE_METHODS.items():
                 if o is not None and isinstance(o, t) and e.attr in names:
                     return getattr(o, e.attr)        # a bound method of a plain value (str.format ...), used as a value
@@ -702,17 +720,96 @@ class Interp:
         if isinstance(e, ast.Call):
             return self.callexpr(e, env, mod)
         if isinstance(e, ast.Lambda):
-            return ('#lambda', e, dict(env), mod)
+            return ('#lambda', e, env, mod, self._defaults(e.args, env, mod))
         raise Unsupported('expression %s' % type(e).__name__)
+
+    def _iter(self, v):
+        """what `for x in v` iterates over: a repository class answers through its own __iter__ (a dict subclass by its keys)"""
+        if isinstance(v, Obj) and v.cls is not None:
+            it = self.prog.lookup_method(v.cls.qn, '__iter__')
+            if it is not None:
+                return self._iter(self.invoke(it, [], {}, v))
+            if any(b.split('.')[-1] in ('dict', 'OrderedDict') for b in self.prog.external_bases(v.cls.qn)):
+                return iter(list(v.items))
+            r = Raised('%s object is not iterable' % v.cls.name)
+            r.excname = 'TypeError'
+            raise r
+        return v
+
+    def _truth(self, v):
+        """truth value as Python takes it: __bool__, else __len__, of a repository class"""
+        if isinstance(v, Obj) and v.cls is not None:
+            for nm in ('__bool__', '__len__'):
+                m = self.prog.lookup_method(v.cls.qn, nm)
+                if m is not None:
+                    return bool(self.invoke(m, [], {}, v))
+            if any(b.split('.')[-1] in ('dict', 'OrderedDict') for b in self.prog.external_bases(v.cls.qn)):
+                return bool(v.items)
+            return True
+        return bool(v)
+
+    def _str(self, v, how='__str__'):
+        if isinstance(v, Obj) and v.cls is not None:
+            for nm in ((how, '__repr__') if how == '__str__' else ('__repr__',)):
+                m = self.prog.lookup_method(v.cls.qn, nm)
+                if m is not None:
+                    return self.invoke(m, [], {}, v)
+        return str(v) if how == '__str__' else repr(v)
+
+    def _proxy(self, v):
+        """an object of a repository class as Python's formatting sees it: str() / repr() through its own __str__ / __repr__"""
+        interp = self
+        if isinstance(v, Obj):
+            class P(object):
+                def __str__(self_):
+                    return interp._str(v)
+
+                def __repr__(self_):
+                    return interp._str(v, '__repr__')
+
+                def __format__(self_, spec):
+                    return format(interp._str(v), spec)
+            return P()
+        if isinstance(v, tuple) and not hasattr(type(v), '_fields') and any(isinstance(x, Obj) for x in v):
+            return tuple(self._proxy(x) for x in v)
+        if isinstance(v, list) and any(isinstance(x, Obj) for x in v):
+            return [self._proxy(x) for x in v]
+        if isinstance(v, dict) and any(isinstance(x, Obj) for x in v.values()):
+            return {k: self._proxy(x) for k, x in v.items()}
+        return v
+
+    def _binop(self, op, a, b):
+        if isinstance(op, ast.Mod) and isinstance(a, str):
+            b = self._proxy(b)
+        return self.binop(op, a, b)
+
+    def _compare(self, op, a, b):
+        if isinstance(op, (ast.Eq, ast.NotEq)):
+            for x, y in ((a, b), (b, a)):
+                if isinstance(x, Obj) and x.cls is not None:
+                    m = self.prog.lookup_method(x.cls.qn, '__eq__')
+                    if m is not None:
+                        r = self.invoke(m, [y], {}, x)
+                        return self._truth(r) if isinstance(op, ast.Eq) else not self._truth(r)
+        if isinstance(op, (ast.In, ast.NotIn)) and isinstance(b, Obj) and b.cls is not None:
+            m = self.prog.lookup_method(b.cls.qn, '__contains__')
+            if m is not None:
+                r = self._truth(self.invoke(m, [a], {}, b))
+                return r if isinstance(op, ast.In) else not r
+            it = self.prog.lookup_method(b.cls.qn, '__iter__')
+            if it is not None:
+                r = any(x == a for x in self._iter(b))
+                return r if isinstance(op, ast.In) else not r
+        return self.compare(op, a, b)
 
     def comp(self, gens, i, env, mod, emit):
         if i == len(gens):
             emit(env)
             return
         g = gens[i]
-        for x in self.expr(g.iter, env, mod):
+        for x in self._iter(self.expr(g.iter, env, mod)):
             self.assign(g.target, x, env, mod)
-            if all(self.expr(c, env, mod) for c in g.ifs):
+            if all(self._truth(self.expr(c, env, mod)) for c in g.ifs):
                 self.comp(gens, i + 1, env, mod, emit)
 
     def callexpr(self, e, env, mod):
@@ -769,6 +866,24 @@ class Interp:
                 and 'eval' not in env:
             # eval('ClassName'): the only use in this code base - a name looked up in the module (never evaluated for real)
             return self.expr(ast.Name(id=args[0], ctx=ast.Load()), {}, mod)
+        if isinstance(fn, ast.Name) and fn.id == 'super' and 'super' not in env:
+            if args and len(args) == 2 and isinstance(args[0], tuple) and args[0][:1] == ('#sym',) and args[0][1].kind == 'class':
+                return ('#super', self.prog.classes[args[0][1].target], args[1])
+            if not args and '#super' in env:
+                return ('#super',) + env['#super']
+            raise Unsupported('super() outside a method')
+        if isinstance(fn, ast.Attribute) and isinstance(fn.value, ast.Call) and isinstance(fn.value.func, ast.Name) and fn.value.func.id == 'super' \
+                and 'super' not in env:
+            sup = self.callexpr(fn.value, env, mod)
+            _tag, klass, obj = sup
+            m = self.prog.lookup_method(obj.cls.qn if isinstance(obj, Obj) and obj.cls is not None else klass.qn, fn.attr, after=klass.qn)
+            if m is None:
+                if fn.attr == '__init__':
+                    return None          # object.__init__ / a library base initialiser: nothing of the repository to run
+                raise Unsupported('super().%s resolves outside the repository' % fn.attr)
+            return self.invoke(m, args, kwargs, obj)
+        if isinstance(fn, ast.Name) and fn.id in ('str', 'repr') and len(args) == 1 and isinstance(args[0], Obj) and fn.id not in env:
+            return self._str(args[0], '__str__' if fn.id == 'str' else '__repr__')
         if isinstance(fn, ast.Name) and fn.id == 'type' and len(args) == 1 and isinstance(args[0], Obj) and args[0].cls is not None \
                 and 'type' not in env:
             return ('#classof', args[0].cls)
@@ -833,6 +948,9 @@ class Interp:
                         raise r
                     raise Unsupported('method %s of %s' % (fn.attr, o.cls.name))
                 return self.invoke(m, args, kwargs, o)
+            if isinstance(o, (list, tuple, dict, set, frozenset, str, bytes)) and not hasattr(type(o), '_fields') and \
+                    fn.attr in ('__iter__', '__len__', '__contains__', '__getitem__', '__str__', '__repr__', '__eq__', '__ne__', '__hash__'):
+                return getattr(o, fn.attr)(*args)
             if isinstance(o, tuple) and hasattr(type(o), '_fields') and fn.attr in ('_replace', '_asdict', 'index', 'count'):
                 return getattr(o, fn.attr)(*args, **kwargs)       # namedtuple methods
             for t, names in SAFE_METHODS.items():
@@ -867,7 +985,7 @@ class Interp:
             return self.invoke(f[1], args, kwargs, f[2])
         if isinstance(f, tuple) and f and f[0] == '#def':
             node, cenv, mod = f[1], f[2], f[3]
-            env = self._bind_local(node.args, args, kwargs, cenv, mod, node.name)
+            env = self._bind_local(node.args, args, kwargs, cenv, mod, node.name, f[4] if len(f) > 4 else None)
             gen = _is_generator(node)
             if gen:
                 env['#yield'] = []
@@ -878,7 +996,7 @@ class Interp:
             return iter(env['#yield']) if gen else None
         if isinstance(f, tuple) and f and f[0] == '#lambda':
             lam, cenv, mod = f[1], f[2], f[3]
-            env = self._bind_local(lam.args, args, kwargs, cenv, mod, 'lambda')
+            env = self._bind_local(lam.args, args, kwargs, cenv, mod, 'lambda', f[4] if len(f) > 4 else None)
             return self.expr(lam.body, env, mod)
         if callable(f) and (f in SAFE_BUILTINS.values() or f in SAFE_ATTR_CALLS.values()):
             return f(*self._py(args), **{k: self._py1(v) for k, v in kwargs.items()})
@@ -893,7 +1011,11 @@ class Interp:
                     return f(*self._py(args), **kwargs)
         raise Unsupported('call of %r' % (f,))
 
-    def _bind_local(self, a, args, kwargs, cenv, mod, what):
+    def _defaults(self, a, env, mod):
+        """default values, evaluated where the function is defined (as Python does)"""
+        return ([self.expr(d, env, mod) for d in a.defaults], [None if d is None else self.expr(d, env, mod) for d in a.kw_defaults])
+
+    def _bind_local(self, a, args, kwargs, cenv, mod, what, dvals=None):
         """parameters of a nested def / lambda bound as Python binds them (defaults evaluated in the defining scope)"""
         env = dict(cenv)
         env.pop('#yield', None)
@@ -915,14 +1037,14 @@ class Interp:
                     r = Raised('%s() missing argument %s' % (what, nm))
                     r.excname = 'TypeError'
                     raise r
-                env[nm] = self.expr(defaults[j], cenv, mod)
+                env[nm] = dvals[0][j] if dvals is not None else self.expr(defaults[j], cenv, mod)
         if a.vararg is not None:
             env[a.vararg.arg] = tuple(args[len(names):])
-        for x, d in zip(a.kwonlyargs, a.kw_defaults):
+        for ki, (x, d) in enumerate(zip(a.kwonlyargs, a.kw_defaults)):
             if x.arg in kwargs:
                 env[x.arg] = kwargs.pop(x.arg)
             elif d is not None:
-                env[x.arg] = self.expr(d, cenv, mod)
+                env[x.arg] = dvals[1][ki] if dvals is not None else self.expr(d, cenv, mod)
             else:
                 r = Raised('%s() missing keyword-only argument %s' % (what, x.arg))
                 r.excname = 'TypeError'
